@@ -16,6 +16,7 @@ import (
 
 	"verifsim/engines/faultsim"
 	"verifsim/gen"
+	"verifsim/hooks"
 	"verifsim/kernel"
 	"verifsim/xutil"
 )
@@ -103,6 +104,11 @@ type install struct {
 	// action policy for expression parties: 0 all pass, 1 all re-enter, 2 per-invocation choice
 	policy   int
 	reenterP int // probability numerator /8 for policy 2
+	// specific: a re-entering party may call the public parse function for the current token's kind
+	// (ParseFunctionExpression, ParseGroupedExpression, ...) instead of ParsePrefixExpression
+	specific bool
+	// bailout (C16 only): one nested statement-interceptor invocation panics, the outermost one recovers
+	bailout bool
 	// subParse: parties occasionally run an independent nested parser before calling next()
 	subParse bool
 	// builds: how many parsers are built (and parsed) from the same builder; lateAdds[b] is the
@@ -146,6 +152,8 @@ func drawInstall(ch *kernel.Chooser, forC16 bool) install {
 	in.policy = ch.Weighted(4, 2, 5)
 	in.reenterP = 1 + ch.Choose(7)
 	in.subParse = ch.Bool(1, 4)
+	in.specific = ch.Bool(1, 3)
+	in.bailout = forC16 && ch.Bool(1, 6)
 	in.builds = 1 + ch.Weighted(5, 3, 2)
 	in.lateAdds = make([]byte, in.builds)
 	for b := 1; b < in.builds; b++ {
@@ -157,7 +165,7 @@ func drawInstall(ch *kernel.Chooser, forC16 bool) install {
 }
 
 func (in install) String() string {
-	return fmt.Sprintf("token=%d stmt=%d expr=%d order=%s policy=%d nested-parse=%v builds=%d late=%q", in.kT, in.kS, in.kE, string(in.order), in.policy, in.subParse, in.builds, string(in.lateAdds))
+	return fmt.Sprintf("token=%d stmt=%d expr=%d order=%s policy=%d nested-parse=%v specific=%v bailout=%v builds=%d late=%q", in.kT, in.kS, in.kE, string(in.order), in.policy, in.subParse, in.specific, in.bailout, in.builds, string(in.lateAdds))
 }
 
 // installation: one pair of builders with the simulated parties installed so far.
@@ -172,6 +180,41 @@ type installation struct {
 	st         *kernel.Stats
 	ti, si, ei int
 	exprDepth  int
+	stmtDepth  int
+	bailed     bool // a bailout happened during the current parse
+}
+
+type bailoutPanic struct{}
+
+// specificPrefix parses the prefix with the public parse function for the current token's kind.
+func specificPrefix(p *parser.Parser) ast.Expression {
+	switch p.CurrentToken.Type {
+	case token.IDENT:
+		return p.ParseIdentifier()
+	case token.INT:
+		return p.ParseIntegerLiteral()
+	case token.FLOAT:
+		return p.ParseFloatLiteral()
+	case token.STRING:
+		return p.ParseStringLiteral()
+	case token.RAW_STRING:
+		return p.ParseMultiStringLiteral()
+	case token.TRUE, token.FALSE:
+		return p.ParseBooleanLiteral()
+	case token.NULL:
+		return p.ParseNullLiteral()
+	case token.NOT, token.MINUS, token.INCREMENT, token.DECREMENT:
+		return p.ParseUnaryExpression()
+	case token.LPAREN:
+		return p.ParseGroupedExpression()
+	case token.LBRACKET:
+		return p.ParseArrayLiteral()
+	case token.LBRACE:
+		return p.ParseObjectLiteral()
+	case token.FUNCTION:
+		return p.ParseFunctionExpression()
+	}
+	return p.ParsePrefixExpression()
 }
 
 func newInstallation(in *install, m xutil.Mode, ch *kernel.Chooser, r *recorder, st *kernel.Stats) *installation {
@@ -233,9 +276,33 @@ func (x *installation) add(k byte, via bool) {
 		case 'S':
 			idx := x.si
 			x.si++
-			f := func(p *parser.Parser, next func() ast.Statement) ast.Statement {
+			f := func(p *parser.Parser, next func() ast.Statement) (result ast.Statement) {
 				entry := p.CurrentToken
 				ord := r.ordinal(entry)
+				if in.bailout {
+					x.stmtDepth++
+					depth := x.stmtDepth
+					defer func() {
+						x.stmtDepth = depth - 1
+						if depth == 1 && idx == 0 {
+							// the usual bail-out idiom: the outermost party of the plugin recovers what an inner one threw
+							if rec := recover(); rec != nil {
+								if _, ok := rec.(bailoutPanic); !ok {
+									panic(rec)
+								}
+								st.Inc("probe.bailout_recovered_by_outer_interceptor")
+								result = nil
+							}
+						}
+					}()
+					if depth >= 2 && !x.bailed && ch.Bool(1, 6) {
+						x.bailed = true
+						if p.IsInFunction() {
+							st.Inc("probe.bailout_thrown_inside_function_body")
+						}
+						panic(bailoutPanic{})
+					}
+				}
 				r.add('S', idx, 'e', ord, false)
 				if idx == 0 {
 					r.ctxs = append(r.ctxs, ctxObs{kind: 'S', ord: ord, inFunc: p.IsInFunction(), ctx: p.CurrentContext(), tokLit: entry.Literal})
@@ -287,7 +354,16 @@ func (x *installation) add(k byte, via bool) {
 					if idx+1 < x.ei {
 						st.Inc("probe.reentrant_party_before_passthrough_party")
 					}
-					left := p.ParsePrefixExpression()
+					var left ast.Expression
+					if in.specific && ch.Bool(1, 2) {
+						st.Inc("probe.reentrant_via_specific_public_parse_function")
+						if p.CurrentToken.Type == token.FUNCTION {
+							st.Inc("probe.reentrant_via_ParseFunctionExpression")
+						}
+						left = specificPrefix(p)
+					} else {
+						left = p.ParsePrefixExpression()
+					}
 					e = p.ParseRemainingExpression(left)
 				} else {
 					r.add('E', idx, 'n', ord, false)
@@ -552,6 +628,12 @@ func genCfg(ch *kernel.Chooser, forC16 bool) gen.Config {
 		cfg.FuncHeavy = ch.Bool(3, 4)
 		cfg.MaxNest = 2 + ch.Choose(7)
 		cfg.MaxTokens = 30 + ch.Choose(90)
+		if ch.Bool(1, 10) {
+			// "at any depth": one forced chain of nested blocks and functions, far beyond what sampling reaches
+			cfg.DeepNest = 8 + ch.Choose(56)
+		}
+	} else if ch.Bool(1, 40) {
+		cfg.DeepNest = 4 + ch.Choose(30)
 	}
 	return cfg
 }
@@ -666,7 +748,10 @@ func (e *Engine) Run(prop string, ch *kernel.Chooser, st *kernel.Stats) kernel.R
 			*rec = recorder{posIndex: posIndex, nTok: len(toks)}
 			st.Inc("probe.builder_reused_for_another_parser")
 		}
+		inst.bailed, inst.stmtDepth, inst.exprDepth = false, 0, 0
+		lexCalls := hooks.Count(hooks.LexerNextToken)
 		out := observe(inst.pb, text, rec)
+		lexCalls = hooks.Count(hooks.LexerNextToken) - lexCalls
 		res.Steps += int64(len(rec.events))
 		anyRe := false
 		for _, ev := range rec.events {
@@ -751,6 +836,23 @@ func (e *Engine) Run(prop string, ch *kernel.Chooser, st *kernel.Stats) kernel.R
 					}
 				}
 			}
+			// once per token includes the end-of-input token: the parser reads until its current token is
+			// end of input, so every token interceptor must have been asked for it at least once
+			if out.panic == "" && in.kT > 0 {
+				eofSeen := 0
+				for _, to := range rec.toks {
+					if to.tok.Type == token.EOF {
+						eofSeen++
+					}
+				}
+				if eofSeen < in.kT {
+					add("C04", "order", "order|token-eof", fmt.Sprintf("%d token interceptors are installed and the parse ran to end of input, but end-of-input tokens passed through interceptors only %d times", in.kT, eofSeen))
+				}
+				// ground truth from /repo's guarded yield point at the top of Lexer.NextToken
+				if hooks.Active && !in.subParse && int64(rec.pulls) != lexCalls {
+					add("C04", "order", "order|token-count-vs-lexer", fmt.Sprintf("Lexer.NextToken was called %d times during the parse but the token interceptor chain ran %d times", lexCalls, rec.pulls))
+				}
+			}
 			// history: order, exactly-once, same current token
 			for _, kk := range []struct {
 				kind byte
@@ -818,7 +920,8 @@ func (e *Engine) Run(prop string, ch *kernel.Chooser, st *kernel.Stats) kernel.R
 
 		if prop == "C16" {
 			// in-run oracle on valid programs: answers at every invocation vs generator nesting
-			if valid {
+			// (not after a bail-out: the parse continued from the middle of a construct)
+			if valid && !inst.bailed {
 				for _, rr := range []*recorder{ref, rec} {
 					for _, c := range rr.ctxs {
 						if c.ord < 0 || c.ord >= len(p.Toks) {
@@ -828,6 +931,9 @@ func (e *Engine) Run(prop string, ch *kernel.Chooser, st *kernel.Stats) kernel.R
 						kindName := map[byte]string{'S': "statement", 'E': "expression"}[c.kind]
 						if gt.CtxDepth >= 5 {
 							st.Inc("probe.depth_ge5")
+						}
+						if gt.CtxDepth >= 40 {
+							st.Inc("probe.context_stack_depth_ge40")
 						}
 						if c.inFunc != gt.InFunc {
 							add("C16", "in-function", fmt.Sprintf("in-function|want=%v|%s", gt.InFunc, kindName),
@@ -882,6 +988,16 @@ func (e *Engine) Run(prop string, ch *kernel.Chooser, st *kernel.Stats) kernel.R
 			faults := faultsim.EnumerateFaults(p)
 			if curBuild > 0 {
 				faults = nil
+			}
+			if len(faults) > 600 {
+				// very large (deep-nest) programs: a seeded sample of the fault positions
+				step := len(faults)/600 + 1
+				off := ch.Choose(step)
+				var sampled []faultsim.Fault
+				for i := off; i < len(faults); i += step {
+					sampled = append(sampled, faults[i])
+				}
+				faults = sampled
 			}
 			for _, f := range faults {
 				for _, mm := range xutil.AllModes {
@@ -981,8 +1097,8 @@ func init() {
 			"sampling over programs, installations and action schedules; not exhaustive",
 		},
 		RequiredProbes: map[string][]string{
-			"C04": {"probe.reentrant_invocations", "probe.reentrant_at_depth_ge3", "probe.reentrant_party_before_passthrough_party", "probe.installed_via_plugin", "probe.malformed_with_errors_under_many_interceptors", "probe.eight_of_each_kind", "probe.builder_reused_for_another_parser", "probe.party_installed_between_two_builds", "probe.nested_parser_run_inside_interceptor"},
-			"C16": {"probe.depth_ge5", "probe.function_body_direct", "probe.funcexpr_in_call_argument", "probe.funcexpr_in_object_value", "probe.funcexpr_in_condition", "probe.final_state_checked_on_erroring_input", "probe.nested_parser_run_inside_interceptor", "probe.builder_reused_for_another_parser"},
+			"C04": {"probe.reentrant_invocations", "probe.reentrant_at_depth_ge3", "probe.reentrant_party_before_passthrough_party", "probe.installed_via_plugin", "probe.malformed_with_errors_under_many_interceptors", "probe.eight_of_each_kind", "probe.builder_reused_for_another_parser", "probe.party_installed_between_two_builds", "probe.nested_parser_run_inside_interceptor", "probe.reentrant_via_specific_public_parse_function"},
+			"C16": {"probe.depth_ge5", "probe.function_body_direct", "probe.funcexpr_in_call_argument", "probe.funcexpr_in_object_value", "probe.funcexpr_in_condition", "probe.final_state_checked_on_erroring_input", "probe.nested_parser_run_inside_interceptor", "probe.builder_reused_for_another_parser", "probe.bailout_recovered_by_outer_interceptor", "probe.bailout_thrown_inside_function_body", "probe.reentrant_via_ParseFunctionExpression", "probe.context_stack_depth_ge40"},
 		},
 	})
 }
